@@ -429,6 +429,10 @@ def gen_matrix(rng):
         for b in operands:
             cases.append({"world": world, "ops": [["cmp", a, b], ["hash", a if a[0] in "XS" else I, b]], "matrix": True})
     cases.append({"world": world, "ops": [["sort", operands[:8]], ["dict", operands[:7]]], "matrix": True})
+    # the documented base classes, bare (slots never assigned)
+    for what in ("ib_hash_unhashable", "ib_hash_unset", "cpb_unset", "cpb_no_implements", "cpb_other_cls",
+                 "sb_unset", "sb_implied_none"):
+        cases.append({"world": world, "ops": [["bare", what, ["c", c0], I]], "matrix": True})
     for k in range(len(cat)):
         for op in unary(["odd", k]) + unary(["oddc", k]):
             cases.append({"world": world, "ops": [["newreg", "push", []], op, copy.deepcopy(op)], "matrix": True})
@@ -501,8 +505,11 @@ def _row(row, mode):
         return "(ROsdGet %s %s %s %s %s)" % (uc, C.cbool(row["inst"]), _pv(row["prov"]), _pv(row["fallback"]),
                                              _pv(row["out"]))
     if k == "cpb":
-        return "(RCpbGet %s %s %s %d %d %s)" % (uc, C.cbool(row["same_cls"]), C.cbool(row["inst"]), row["self"],
-                                                row["implements"], _pv(row["out"]))
+        impl = "None" if not row["implements"] else "(Some %d)" % row["implements"]
+        return "(RCpbGet %s %s %s %s %d %s %s)" % (uc, C.cbool(row.get("cls_set", True)), C.cbool(row["same_cls"]),
+                                                   C.cbool(row["inst"]), row["self"], impl, _pv(row["out"]))
+    if k == "hashfail":
+        return "(RHashFail %s %d %d)" % (uc, row["outs"][0], row["outs"][1])
     if k == "hash":
         return "(RHash %s %s %s %s)" % (uc, C.cZ(row["tuple"]), C.cZ(row["h1"]), C.cZ(row["h2"]))
     if k == "cmp":
